@@ -311,23 +311,26 @@ def recOf (h : Hdr) (hasParHdr phy : Bool) : Rec :=
     size := h.size, parentId := h.parentId, firstId := h.firstId, splitId := h.splitId,
     assoc := h.assoc, exp := h.exp, ec := h.ec }
 
+/-- one target of the tombstone loop of `handleObjectWithAssociation`; state = (garbage list, `inhumed`,
+payload decrease).  Reads see the marks written so far in this transaction. -/
+def Cnr.tombStep (c : Cnr) (epoch : Nat) (acc : List (Nat × Bool) × Int × Int) (id : Nat) :
+    List (Nat × Bool) × Int × Int :=
+  let cur : Cnr := { c with garb := acc.1 }
+  let g := cur.get id false true epoch
+  -- (repaired: a mark of either kind means the object has been counted already)
+  let counted := g.1 == .ok && cur.inGarbage id == .available && !(acc.1.any fun x => x.1 == id)
+  let inh := if counted then acc.2.1 + 1 else acc.2.1
+  let pay := if counted then
+      (match g.2 with
+       | some rec => if rec.typ == .regular && rec.phy then acc.2.2 - rec.size else acc.2.2
+       | none => acc.2.2)
+    else acc.2.2
+  (insertGarb (id, false) acc.1, inh, pay)
+
 /-- `handleObjectWithAssociation` for a tombstone: marks the target and all its children, returns the new
 garbage list and (`inhumed`, payload decrease). -/
 def Cnr.tombstoneMarks (c : Cnr) (epoch target : Nat) : List (Nat × Bool) × Int × Int :=
-  let ids := c.collectChildren 4 target ++ [target]
-  ids.foldl (fun (acc : List (Nat × Bool) × Int × Int) id =>
-    let (garb, inh, pay) := acc
-    -- reads see the marks written so far in this transaction
-    let cur : Cnr := { c with garb := garb }
-    let (e, r) := cur.get id false true epoch
-    let (inh, pay) :=
-      if e == .ok && cur.inGarbage id == .available then
-        (inh + 1,
-         match r with
-         | some rec => if rec.typ == .regular && rec.phy then pay - rec.size else pay
-         | none => pay)
-      else (inh, pay)
-    (insertGarb (id, false) garb, inh, pay)) (c.garb, 0, 0)
+  (c.collectChildren 4 target ++ [target]).foldl (c.tombStep epoch) (c.garb, 0, 0)
 
 /-- The part of `db.put` after the existence check and the parent: type-specific handling
 (`handleLinkObject`, `handleObjectWithAssociation`, `handleRegularObject`), `applyDiff` and
